@@ -72,13 +72,13 @@ def to_numeric(x):
     return x
 
 
-def agree(got, want, strict_kind=False):
+def agree(got, want, strict_kind=False, tol=False):
     """complaint or None"""
     if isinstance(want, (tuple, list)):
         if not isinstance(got, (tuple, list)) or len(got) != len(want):
             return f"sequence of {len(want)} expected, got {type(got).__name__}"
         for i, (g, w) in enumerate(zip(got, want)):
-            r = agree(g, w, strict_kind)
+            r = agree(g, w, strict_kind, tol)
             if r:
                 return f"[{i}] {r}"
         return None
@@ -96,7 +96,11 @@ def agree(got, want, strict_kind=False):
             return f"dtype kind {g.dtype} != numpy's {w.dtype}"
     if w.dtype == object or g.dtype == object:
         return None if g.tolist() == w.tolist() else f"{g.tolist()} != {w.tolist()}"
-    if not numpy.allclose(g.astype(complex), w.astype(complex), rtol=1e-12, atol=1e-12, equal_nan=True):
+    # exact: on constants numpoly applies the very numpy function to the coefficient array, so the bits must agree
+    if tol:
+        if not numpy.allclose(g.astype(complex), w.astype(complex), rtol=1e-9, atol=1e-9, equal_nan=True):
+            return f"values {g.tolist()} != numpy's {w.tolist()}"
+    elif not numpy.array_equal(g.astype(complex), w.astype(complex), equal_nan=True):
         return f"values {g.tolist()} != numpy's {w.tolist()}"
     return None
 
@@ -124,7 +128,8 @@ def judge(R, fname, label, f_impl, f_ref, tags, strict_kind=False, sub=None):
     if got[0] == "exc":
         R.fail(fname, "exception", f"{fname}{label}: {type(got[1]).__name__}: {str(got[1])[:200]} (numpy returns {str(ref[1])[:80]})", tags=tags, sub=sub)
         return
-    r = agree(to_numeric(got[1]), ref[1], strict_kind)
+    # numpy.linalg.det is a floating-point LU factorisation, numpoly's det is exact polynomial arithmetic
+    r = agree(to_numeric(got[1]), ref[1], strict_kind, tol=(fname == "det"))
     if r:
         R.fail(fname, "wrong-value", f"{fname}{label}: {r}"[:460], tags=tags, sub=sub)
     else:
@@ -244,7 +249,8 @@ def run_case(case, R):
             pd = const_poly(d, "q1")
             for fname in ("true_divide", "divide", "floor_divide", "remainder", "divmod"):
                 npf = getattr(numpy, fname)
-                for lab, pa, pb_, na, nb in (("(a,d)", p, pd, a, d), ("(a,2)", p, 2, a, 2), ("(7,d)", 7, pd, 7, d), ("(a,-3)", p, -3, a, -3), ("(a,0.5)", p, 0.5, a, 0.5)):
+                for lab, pa, pb_, na, nb in (("(a,d)", p, pd, a, d), ("(a,2)", p, 2, a, 2), ("(7,d)", 7, pd, 7, d), ("(a,-3)", p, -3, a, -3), ("(a,0.5)", p, 0.5, a, 0.5),
+                                             ("(a,10)", p, 10, a, 10), ("(a,49)", p, 49, a, 49), ("(a,0.7)", p, 0.7, a, 0.7), ("(49,d)", 49, pd, 49, d)):
                     judge(R, fname, f"{lab} a={a.tolist()} d={d.tolist()}", lambda: getattr(numpoly, fname)(pa, pb_), lambda: npf(na, nb), tags + ["division"])
                     judge(R, fname, f"[numpy]{lab} a={a.tolist()} d={d.tolist()}", lambda: npf(pa, pb_), lambda: npf(na, nb), tags + ["division"])
     elif k == "catalogue":
